@@ -204,6 +204,7 @@ func sortJSONArray(input gjson.Result, output []byte) []byte {
 func sortJSONObject(input gjson.Result, output []byte) []byte {
 	type entry struct {
 		key   string // The parsed key string
+		raw   string // The raw unparsed key, including the quotes
 		value gjson.Result
 	}
 
@@ -216,6 +217,7 @@ func sortJSONObject(input gjson.Result, output []byte) []byte {
 	input.ForEach(func(key, value gjson.Result) bool {
 		entries = append(entries, entry{
 			key:   key.String(),
+			raw:   key.Raw,
 			value: value,
 		})
 		return true // keep iterating
@@ -234,9 +236,8 @@ func sortJSONObject(input gjson.Result, output []byte) []byte {
 		sep = ','
 
 		// Append the raw unparsed JSON key, *not* the parsed key
-		output = append(output, '"')
-		output = append(output, entry.key...)
-		output = append(output, '"', ':')
+		output = append(output, entry.raw...)
+		output = append(output, ':')
 		output = sortJSONValue(entry.value, output)
 	}
 	if sep == '{' {
